@@ -200,7 +200,7 @@ class Tree:
                     continue
                 if {h[0] for h in have} == {w[0] for w in want}:
                     continue  # same names in another order (reordered independent statements): nothing to rename
-                mapping = {h[0]: w[0] for h, w in zip(have, want) if h[0] != w[0]}
+                mapping = {h[0]: w[0] for h, w in zip(have, want) if h[0] != w[0] and h[1] not in ("def", "import")}
                 a = f.node.args
                 pnames = {x.arg for x in a.posonlyargs + a.args + a.kwonlyargs}
                 used = {n.id for n in ast.walk(f.node) if isinstance(n, ast.Name)} | pnames
